@@ -29,7 +29,7 @@ type raceChildResult struct {
 
 var raceCalls = []string{"AddRequestHeader", "RequestHeader", "RequestHeaders", "AddResponseHeader", "ResponseHeader",
 	"ResponseHeaders", "SetTimeout", "Timeout", "CorrelationID", "AddEphemeralProperty", "EphemeralProperty",
-	"EphemeralProperties", "Clone()", "frugal.Clone", "WriteRequestHeader", "WriteResponseHeader", "ToContext"}
+	"EphemeralProperties", "Clone()", "frugal.Clone", "WriteRequestHeader", "WriteResponseHeader", "ToContext", "ReadResponseHeader"}
 
 // raceChildMain runs in the -race build. All harness state is private to a
 // goroutine or merged after wg.Wait, so every report concerns the library.
@@ -141,6 +141,10 @@ func raceChildMain(tier string) int {
 				case 16:
 					_, cancel := frugal.ToContext(ctx)
 					cancel()
+				case 17:
+					if err := responseReader(frugal.VerifMarshalHeaders(map[string]string{k: v, "r" + k: v, "_opid": "9"})).ReadResponseHeader(ctx); err == nil {
+						sink++
+					}
 				}
 			}
 			if sink == -1 {
